@@ -2,14 +2,22 @@ import FcpptProofs.C05.NoDrop
 /-!
 # C05 — property theorems: generic operations conserve values
 
-Registry (`Op.all`, 66 operations, programs in FcpptModel/Model/C05.lean):
-algorithm::map, fold, fold_break, map_concat, map_optional, reverse; container::join (2, 3), pop_back, pop_front, make_move_range
-(driven by algorithm::map), get_or_insert, get_or_insert_with_result, make; move_clear; move_if, move_if_rvalue;
-optional::map, bind, from, alternative, filter, to_container, join, combine, apply, sequence, cat;
-either::map, map_failure, bind, match, success_opt, failure_opt, from_optional, join, apply, sequence, first_success;
-variant::match, apply (1, 2), to_optional; tuple::map, push_back, concat; array::map, push_back, join (2, 3), from_range;
-record::map, permute, multiply_disjoint; grid::map, apply, resize; tree::object(T), push_back(T), push_back(object&&), release,
-tree::map; options::flag / option constructors; parse::sequence / repetition results.
+Registry (`Op.all`, 166 operations, programs in FcpptModel/Model/C05.lean; its head comment names the mirrored C++ file of every group):
+algorithm::map (vector, list->deque, array, tuple), fold, fold_break, map_concat, map_optional, reverse, find_opt, index_of, contains,
+find_if_opt, find_by_opt, generate_n, map_iteration(_second), sequence_iteration (list, vector), remove, remove_if, unique, unique_if,
+loop_break over a tuple; container::join (2, 3, the same container twice), pop_back, pop_front, make_move_range, get_or_insert(_with_result),
+make, insert, set_union / difference / intersection, map_values_copy, at_optional, maybe_back / front, find_opt_mapped, index_map::get;
+move_clear; move_if, move_if_rvalue;
+optional::map, bind, from, alternative, filter, to_container, join, combine, apply, sequence, cat, make, constructors, assign, to_exception,
+make_if, maybe, maybe_void, maybe_multi, maybe_void_multi, copy_value;
+either::map, map_failure, bind, match, success_opt, failure_opt, from_optional, join, apply, sequence, first_success, make_success,
+make_failure, constructors, construct, try_call, to_exception, error_from_optional, sequence_error, loop;
+variant::match, apply (1, 2), to_optional, constructor; tuple::map, push_back, concat, invoke, apply, from_array, make, init;
+array::map, push_back, join (2, 3), from_range, apply, init, make; record::map, permute, multiply_disjoint, constructor, init, set;
+grid::map, apply, resize, constructors, assignment, fill, static_row; tree constructors, assignment, value setter, push_back / push_front /
+insert (value, tree), pop_back / pop_front, release, erase, clear, sort, swap, tree::map; options::flag / option constructors and the
+results of argument / optional / product / many / sum; parse::sequence / repetition / repetition_plus / alternative / optional / convert /
+as_struct / separator / list results.
 
 Every theorem is stated for **every** registered operation `o` and **every** well-formed input `inp` (`wf o inp`: the value
 categories the operation can be instantiated with, pairwise distinct identities below 100, answer tables of the right length) —
@@ -52,18 +60,21 @@ theorem accepts_move_only (o : Op) (inp : Input) (h : wf o inp = true) (hall : (
     (outcome o inp).cp = [] :=
   safe_acceptsMoveOnly (prog_safe o inp h) hall
 
-/-- **Exactly once where the operation is documented to keep all elements** (`keeps`: map with an identity-preserving function,
-join, reverse, push_back, concat, permute, multiply_disjoint, array join / from_range, constructors, `sequence` on success, the
-state of a fold, …): every element of an argument passed as an rvalue is live in the result exactly once afterwards and
+/-- **Exactly once where the operation is documented to keep all elements** (`keeps`, 72 operations: map with an identity-preserving
+function, join, reverse, push_back, concat, permute, multiply_disjoint, array join / from_range / apply, make, constructors, `sequence`
+on success, the state of a fold, `apply` / `maybe_multi` of two optionals when both are set, `to_exception`, …): every element of an argument passed as an rvalue is live in the result exactly once afterwards and
 nowhere else — neither duplicated nor lost. -/
 theorem rvalue_exactly_once_in_result (o : Op) (inp : Input) (a : Nat) (h : wf o inp = true) (hk : keeps o inp a = true)
     (ha : inp.cat a = some .rv) : (outcome o inp).ExactlyOnceInResult a :=
   safe_rvalue_exactly_once (wf_ids h) (prog_safe o inp h) (prog_allToRes o inp a hk) a ha (prog_covers o inp a h hk ha)
 
-/-- **No element is destroyed** by an operation that is not one of the four that drop values by design (`drops`: the second failure
-of `either::apply`, the failures before a `first_success`, a half-parsed sequence, the emptied `move_range`): with `conserved`, every
-element is then live exactly `1 + copies` times in arguments and result together — e.g. `pop_back`'s element is in the result and
-the others stay in the container; `get_or_insert` leaves all elements where they were. -/
+/-- **No element is destroyed** by an operation that is not one of those that destroy values by design (`drops`, 24 operations: the second
+failure of `either::apply`, the failures before a `first_success`, a half-parsed sequence / product, the emptied `move_range`, the consumed
+second argument of `optional::combine`; and the in-place operations whose job it is - assignment and `set` overwrite, `erase` / `clear` /
+`remove_if` / `unique_if` / `map_iteration` / `sequence_iteration` erase, `fill` overwrites): with `conserved`, every element is then live
+exactly `1 + copies` times in arguments and result together - e.g. `pop_back`'s element is in the result and the others stay in the
+container; `get_or_insert` leaves all elements where they were. For the 24 operations `conserved` accounts for every destroyed value in
+`lost`, which the correspondence observes (`lost=` of the result line). -/
 theorem nothing_lost (o : Op) (inp : Input) (h : wf o inp = true) (hd : drops o = false) : (outcome o inp).lost = [] :=
   safe_nothing_lost (prog_safe o inp h) (prog_noDrop o inp hd)
 
@@ -89,11 +100,12 @@ example : (outcome .recPermute ⟨[(.rv, [1, 2, 3])], [2, 0, 1]⟩).res = [(3, t
 /-- `map_optional` is a filter: it is not among the keepers -/
 example : keeps .mapOptional ⟨[(.rv, [1, 2])], [1, 0]⟩ 0 = false := by decide
 
-/-! ## refuted: the three repaired defects, each against the operation as it is now
+/-! ## refuted: the four repaired defects, each against the operation as it is now
 
 * `either::bind` before fix f5622af copied the failure of an rvalue either (`oldEithBindFailure`);
 * the `options::flag` constructor before fix 986d19b compared its arguments after moving from them (`oldOptsFlag`);
-* `optional::to_container` before fix 9030486 moved the element out of an lvalue optional (`oldOptToContainer`).
+* `optional::to_container` before fix 9030486 moved the element out of an lvalue optional (`oldOptToContainer`);
+* `parse::repetition_plus` before fix aef45df copied its first result through an initializer_list (`oldParseRepPlus`).
 -/
 
 /-- old `either::bind`, rvalue either holding a failure: the failure is copied -/
@@ -118,6 +130,14 @@ example : ¬ (runOn ⟨[(.lv, [1])], []⟩ (oldOptToContainer 1)).LvalueUnchange
   exact absurd (h 0 .lv (by decide) (Or.inl rfl)) (by decide)
 /-- now the element is copied and the argument keeps it -/
 example : (outcome .optToContainer ⟨[(.lv, [1])], []⟩).outs = [[(1, true)]] ∧ (outcome .optToContainer ⟨[(.lv, [1])], []⟩).cp = [1] := by
+  decide
+
+/-- old `parse::repetition_plus` (before fix aef45df), the sub-results seen as an rvalue argument: the first one is copied -/
+example : ¬ (runOn ⟨[(.rv, [1, 2, 3])], []⟩ (oldParseRepPlus 3)).NoCopyOfRvalue := by
+  intro h
+  exact h 0 (by decide) 1 (by decide) (by decide)
+/-- now every result is moved: nothing is copied -/
+example : (outcome .parseRepPlus ⟨[], [3]⟩).cp = [] ∧ (outcome .parseRepPlus ⟨[], [3]⟩).res = [(1000, true), (1001, true), (1002, true)] := by
   decide
 
 /-! ## refuted: what else the conservation predicates exclude -/
